@@ -49,6 +49,10 @@ def gen_ir(r):
             p["typ"] = p["typ"][:-1] + ", '']" if r.random() < 0.5 else "Literal['', " + p["typ"][8:]
             if "default" in p and r.random() < 0.4:
                 p["default"] = ""
+    # parameters without a description (two or more of them, next to documented ones)
+    if len(ir["params"]) >= 3 and r.random() < 0.12:
+        for n in r.sample(list(ir["params"]), r.randint(2, len(ir["params"]) - 1)):
+            ir["params"][n].pop("doc", None)
     # negative numbers (a UnaryOp node in a signature) under scalar and Optional types; True/False under Optional[bool]
     for n, p in ir["params"].items():
         k = r.random()
@@ -194,13 +198,22 @@ def compare(chk, ir, tree, cfg="doc"):
         if a == b:
             kept[str(len(seq))] = kept.get(str(len(seq)), 0) + 1
         if [x[0] for x in a] != [x[0] for x in b]:
-            chk.failure({"hop": f, "field": "names"}, "chain %s: names %s -> %s" % (seq, [x[0] for x in a], [x[0] for x in b]), rp)
+            # root-cause marker: parameters WITHOUT a description are absent from the emitted docstring, merge_params then lists the documented ones first and the
+            # others in signature order — exactly that order is the known deviation; any other order is something else
+            na, nb = [x[0] for x in a], [x[0] for x in b]
+            docd = [n for n in na if (ir["params"].get(n) or {}).get("doc")]
+            sig_n = {"hop": f, "field": "names"}
+            if len(docd) < len(na) and nb == docd + [n for n in na if n not in docd]:
+                sig_n["order"] = "documented-first"
+            chk.failure(sig_n, "chain %s: names %s -> %s" % (seq, na, nb), rp)
             continue
         for (n, pa), (_, pb) in zip(a, b):
             if pa["default"] != pb["default"]:
                 sig = {"hop": f, "field": "default", "from": kind(pa["default"]), "to": kind(pb["default"]), "typ": typ_class(pa["typ"]), "cfg": cfg}
                 if pa["default"] is not None and pa["default"][0] == "str" and len(pa["default"][1]) >= 40:
                     sig["long"] = True
+                if not (ir["params"].get(n) or {}).get("doc"):
+                    sig["no_doc"] = True  # root cause: an entry without description carries its default nowhere when the default prose is not kept
                 if pa["default"] is not None and pa["default"][0] == "str" and pa["default"][1] == "":
                     sig["empty_str"] = True  # root cause: "Defaults to " + '' announces nothing, so the docstring carries no default
                 chk.failure(sig, "chain %s: %s.default %r -> %r (type %r)" % (seq, n, pa["default"], pb["default"], pa["typ"]), rp)
